@@ -217,6 +217,14 @@ func (tw *TumblingWindow) Add(data any) {
 		default:
 			close(tw.initChan)
 		}
+	} else if timeChar == types.EventTime && tw.currentSlot != nil && eventTime.Before(*tw.currentSlot.Start) &&
+		(tw.watermark == nil || !tw.watermark.IsEventTimeLate(eventTime)) {
+		// An on-time event older than the current window: the current window was
+		// anchored at the first arrival, not at the earliest event, so this event's
+		// own window would never fire. Re-anchor. This can only happen before the
+		// first window fires: once the window has advanced, its start is at or
+		// before the watermark, hence at or before every on-time event.
+		tw.currentSlot = tw.createSlotFromStart(alignWindowStart(eventTime, tw.size))
 	}
 
 	row := types.Row{
